@@ -165,7 +165,7 @@ def table_worker(cells, tier, open_classes):
         base = f"{kind} a:{tn(tl)} {opname} b:{tn(tr)}" if kind != "un" else f"un {opname} a:{tn(tl)}"
         for obs in observers(kind, op):
             cellname = f"{base} obs={obs}"
-            cls = classes_of(kind, op, tl, tr, obs)
+            cls = classes_of(kind, op, tl, tr, obs) & open_classes   # only classes of findings that are still open
             if kind == "bin2" and cls & open_classes:
                 # depth-2 cells inside the class of a listed finding are excluded by construction
                 p.exclude("depth-2 cell in class " + "+".join(sorted(cls & open_classes)))
@@ -272,9 +272,7 @@ def run_check(ctx):
     chunks = [cells[i::64] for i in range(64)]
     open_classes = set()
     for f in ctx.findings:
-        if f.get("status") == "open" and f["id"] not in [k for k in ctx.known_hit] and "program" in f.get("witness", {}):
-            continue    # witness no longer fails: the class is judged again
-        if f.get("status") == "open":
+        if f.get("status") == "open" and f["id"] in ctx.known_hit:     # witness still fails
             open_classes |= set(f.get("cell_classes", []))
     run.run_sharded(ctx, table_worker, [(c, ctx.tier, open_classes) for c in chunks], procs=16)
     ctx.extra["table_cells"] = len(cells)
